@@ -147,7 +147,19 @@ class Pointwise(Interp):
         return None
 
     # -- hooks ----------------------------------------------------------------------------
+    def _mask_value(self, v, node):
+        """truth of a voxel-wise comparison at the generic voxel (split if the sign test leaves it open)"""
+        if isinstance(v, Mask) and v.value is not None:
+            return v.value
+        if isinstance(v, Unknown) and getattr(v, "pv", None) is not None:
+            return self.decide(node, v)
+        return None
+
     def binop_hook(self, op, l, r, node):
+        if isinstance(op, (ast.BitAnd, ast.BitOr)) and isinstance(l, (Mask, Unknown)) and isinstance(r, (Mask, Unknown)):
+            a, b = self._mask_value(l, node), self._mask_value(r, node)
+            if a is not None and b is not None:
+                return Mask((a and b) if isinstance(op, ast.BitAnd) else (a or b), norm(node) if isinstance(node, ast.AST) else "")
         if isinstance(l, EmptyArr) or isinstance(r, EmptyArr):
             return l if isinstance(l, EmptyArr) else r
         a, b = self.lift(l), self.lift(r)
@@ -262,6 +274,11 @@ class Pointwise(Interp):
     def subscript_hook(self, base, idx, node):
         if isinstance(base, EmptyArr):
             return base
+        if isinstance(base, PV) and base.kind == "arr" and not base.uniq and isinstance(idx, (Mask, Unknown)):
+            # boolean selection of voxels: the generic voxel is among them or not
+            t = self._mask_value(idx, node)
+            if t is not None:
+                return PV(base.poly, base.cont, "arr", base.origin) if t else EmptyArr()
         if isinstance(base, PV) and base.uniq and isinstance(idx, int) and not isinstance(idx, bool):
             return PV(base.poly, base.cont, "nps", base.origin)  # some element: the generic one
         if isinstance(base, PV) and base.uniq:
@@ -372,6 +389,8 @@ class Pointwise(Interp):
     def external_call(self, name, args, kwargs, node):
         n = name
         if n in ("numpy.unique",):
+            if args and isinstance(args[0], EmptyArr) and not kwargs:
+                return args[0]
             if args and isinstance(args[0], PV) and not kwargs:
                 a = args[0]
                 return PV(a.poly, a.cont, "arr", a.origin, uniq=True)
